@@ -30,6 +30,9 @@ type rhRec struct {
 }
 type rhInput struct {
 	Const bool    `json:"constant_recorder"`
+	// device name of this many bytes is configured (0: the short default); above 255 the CPTV header
+	// cannot be written, so every StartRecording fails AFTER the temporary file has been created
+	NameLen int `json:"device_name_length,omitempty"`
 	Recs  []rhRec `json:"recordings"`
 }
 
@@ -58,10 +61,25 @@ func rhRun(in rhInput) (ok bool, why string, files int) {
 		cst = "1"
 		recDir = filepath.Join(out, "constant-recordings")
 	}
-	send(fmt.Sprintf("new %s %s 8 6", out, cst))
+	if in.NameLen > 0 {
+		send(fmt.Sprintf("new %s %s 8 6 %d", out, cst, in.NameLen))
+	} else {
+		send(fmt.Sprintf("new %s %s 8 6", out, cst))
+	}
 	var want []rhRec
 	for _, r := range in.Recs {
 		time.Sleep(2 * time.Millisecond) // distinct millisecond time stamps
+		if in.NameLen > 255 {
+			// the header is refused: the start must fail, and the stop that the caller may still issue
+			// (the throttle layer and handleConn's shutdown path do) must not give the header-less file a final name
+			if resp := send(fmt.Sprintf("start %d", r.Thresh)); resp == "<nil>" {
+				return false, "StartRecording succeeded although the header cannot be written", 0
+			}
+			if len(r.Frames)%2 == 1 {
+				send("stop")
+			}
+			continue
+		}
 		if r.FailStart {
 			os.Rename(recDir, recDir+".away")
 			resp := send(fmt.Sprintf("start %d", r.Thresh))
@@ -82,7 +100,16 @@ func rhRun(in rhInput) (ok bool, why string, files int) {
 		}
 		want = append(want, r)
 	}
+	var before []string
+	if in.NameLen > 255 {
+		// what a failed start leaves behind has a temporary name and is removed by the start-up clean-up
+		before, _ = filepath.Glob(filepath.Join(recDir, "*.cptv"))
+		send("deltemp " + out)
+	}
 	send("exit")
+	if len(before) > 0 {
+		return false, fmt.Sprintf("no recording was started, but %d file(s) bear a final name: %v", len(before), before), len(before)
+	}
 	names, _ := filepath.Glob(filepath.Join(recDir, "*.cptv"))
 	sort.Strings(names)
 	if len(names) != len(want) {
@@ -134,11 +161,17 @@ func init() {
 	runners["RECHDR"] = func(rng *rand.Rand, n int, tier string, emit func(Case)) {
 		for i := 0; i < n; i++ {
 			in := rhInput{Const: rng.Intn(3) == 0}
+			if i%4 == 3 {
+				in.NameLen = []int{255, 256, 300}[(i/4)%3]
+			}
 			v := 100
 			fails := 0
 			for k := 0; k < 3+rng.Intn(4); k++ {
 				r := rhRec{Thresh: []int{0, 2900, 3012, 65535, 30000}[rng.Intn(5)]}
-				if k > 0 && rng.Intn(3) == 0 {
+				if in.NameLen > 255 {
+					fails++
+				}
+				if in.NameLen <= 255 && k > 0 && rng.Intn(3) == 0 {
 					r.FailStart = true
 					fails++
 				} else {
@@ -152,7 +185,7 @@ func init() {
 			ok, why, files := rhRun(in)
 			emit(Case{Coq: fmt.Sprintf("mkLag %s %d %d", coqBool(ok), fails, files), Input: in,
 				Impl: map[string]interface{}{"ok": ok, "why": why, "files": files},
-				Tags: []string{fmt.Sprintf("failed-starts=%d", fails), fmt.Sprintf("const=%v", in.Const)}, Nontriv: files >= 2, Key: fmt.Sprint("rechdr", i, fails, files)})
+				Tags: []string{fmt.Sprintf("failed-starts=%d", fails), fmt.Sprintf("const=%v", in.Const)}, Nontriv: files >= 2 || in.NameLen > 255, Key: fmt.Sprint("rechdr", i, fails, files)})
 		}
 	}
 }
